@@ -719,8 +719,9 @@ fn judge(plan: &BPlan, o: &Obs, heap: u64, panicked: bool, out: &mut Outcome) {
     // the bound: what the settings allow a connection to hold (windows, buffers) plus slack;
     // the input itself is at most ~70 KiB
     // ICMP: a 23-byte record asks for an echo of up to 65 535 bytes, which the waiter table
-    // holds until the request time-out - amplification inherent in PROTOCOL.md 7.3 (DESIGN.md)
-    let bound = (48u64 << 20) + if surface == "icmp-mux" || surface == "raw-icmp" { (o.input_len as u64 / 23 + 1) * 66_000 } else { 0 };
+    // holds until the request time-out - amplification inherent in PROTOCOL.md 7.3 (DESIGN.md);
+    // the serialised packet and the world's own record of what was sent are further copies
+    let bound = (48u64 << 20) + if surface == "icmp-mux" || surface == "raw-icmp" { (o.input_len as u64 / 23 + 1) * 200_000 } else { 0 };
     if heap > bound {
         out.violate(
             "C09",
